@@ -199,11 +199,10 @@ def passEnd (s : State) : State :=
     { s with mpc := .wake, condOwner := none, waiting := true, notified := false }
   else { s with mpc := .acq, condOwner := none, todo := s.left, left := [], nBefore := s.left.length }
 
+/-- the task at the head of `todo` has been dealt with -/
 def advance (s : State) : State :=
-  match s.todo with
-  | [] => passEnd s
-  | _ :: [] => passEnd { s with todo := [] }
-  | _ :: rest => { s with todo := rest, mpc := .consider }
+  let s := { s with todo := s.todo.tail }
+  if s.todo.isEmpty then passEnd s else { s with mpc := .consider }
 
 def afterSpawn (c : Cfg) (k : Nat) : MPc :=
   if k + 1 < c.workers then .spawn (k + 1) else if c.n = 0 then .qjoin else .acq
